@@ -172,6 +172,22 @@ def tree(rng, n, pools=None, max_arity=4, p_unary=0.15, max_chain=3,
     return {'sid': sid, 'root': root}
 
 
+def same_sentence(rng, spec, pools=None, sid=None, **kw):
+    """Another random tree over exactly the tokens of spec (same words, tags,
+    lemmas, morphology, in the same order): two readings of one sentence."""
+    toks = sorted(tokens_of(spec['root']), key=lambda t: t['n'])
+    twin = tree(rng, len(toks), pools, sid=spec['sid'] if sid is None else sid,
+                **kw)
+    for t, u in zip(toks, sorted(tokens_of(twin['root']),
+                                 key=lambda t: t['n'])):
+        for k in ('w', 'p', 'lm', 'm'):
+            if k in t:
+                u[k] = t[k]
+            else:
+                u.pop(k, None)
+    return twin
+
+
 LONG = [0]
 LOOKALIKE = [0]
 ATNODES = [0]
